@@ -166,7 +166,7 @@ fn slots_named(e: &Ev) -> Vec<Slot> {
             v
         }
         Ev::Pass { root, .. } => vec![*root],
-        Ev::GradRead { slot, .. } | Ev::GradClear { slot, .. } | Ev::DropSlot { slot } | Ev::Rebind { slot } | Ev::Flag { slot, .. } | Ev::Retire { slot } => vec![*slot],
+        Ev::GradRead { slot, .. } | Ev::GradClear { slot, .. } | Ev::GradSet { slot, .. } | Ev::DropSlot { slot } | Ev::Rebind { slot } | Ev::Flag { slot, .. } | Ev::Retire { slot } => vec![*slot],
         Ev::CloneTo { src, dst } | Ev::FlagClone { src, dst, .. } => vec![*src, *dst],
         Ev::Swap { a, b } => vec![*a, *b],
         Ev::Update { slots, .. } => slots.clone(),
@@ -187,6 +187,7 @@ fn rename(e: &Ev, from: Slot, to: Slot) -> Ev {
         Ev::Pass { root, seed, via_clone } => Ev::Pass { root: r(root), seed: seed.clone(), via_clone: *via_clone },
         Ev::GradRead { slot, via_clone } => Ev::GradRead { slot: r(slot), via_clone: *via_clone },
         Ev::GradClear { slot, how } => Ev::GradClear { slot: r(slot), how: *how },
+        Ev::GradSet { slot, vals, flat } => Ev::GradSet { slot: r(slot), vals: vals.clone(), flat: *flat },
         Ev::Flag { slot, f } => Ev::Flag { slot: r(slot), f: *f },
         Ev::FlagClone { src, dst, f } => Ev::FlagClone { src: r(src), dst: r(dst), f: *f },
         Ev::CloneTo { src, dst } => Ev::CloneTo { src: r(src), dst: r(dst) },
@@ -346,7 +347,7 @@ pub fn c12_compare(base: &Sim, base_final: &[ObsRec], trace: &[Ev], ps: &[Pertur
     let evs: Vec<Ev> = pt.iter().map(|x| x.1.clone()).collect();
     // same guards as the base run (which evaluates them because its monitors are on)
     let fork = {
-        let mut sim = Sim::new(crate::sim::SimCfg { regime, monitors: false, guard_mag: true });
+        let mut sim = Sim::new(crate::sim::SimCfg { regime, monitors: false, guard_mag: true, silent: false });
         let mut src = crate::train::ListSource { evs: &evs, i: 0 };
         let mut rec = Vec::new();
         crate::train::drive(&mut sim, &mut src, &mut rec);
@@ -508,7 +509,7 @@ pub fn executed_mask(trace: &[Ev], regime: Regime) -> Vec<bool> {
 
 /// Which events executed, and which node every slot holds after every event.
 pub fn executed_mask_nodes(trace: &[Ev], regime: Regime) -> (Vec<bool>, Vec<Vec<Option<usize>>>) {
-    let mut sim = Sim::new(crate::sim::SimCfg { regime, monitors: false, guard_mag: true });
+    let mut sim = Sim::new(crate::sim::SimCfg { regime, monitors: false, guard_mag: true, silent: false });
     let mut m = Vec::with_capacity(trace.len());
     let mut nodes = Vec::with_capacity(trace.len());
     for e in trace {
@@ -583,7 +584,7 @@ pub fn c17_case(events: &[Ev], regime: Regime, case: &C17Case) -> (Vec<Violation
         let mut evs: Vec<Ev> = events[..e].to_vec();
         evs.push(Ev::Pass { root, seed, via_clone });
         // the magnitude guard keeps integer data exact in every fork (a guarded pass leaves no deposit)
-        let mut sim = Sim::new(crate::sim::SimCfg { regime, monitors: false, guard_mag: true });
+        let mut sim = Sim::new(crate::sim::SimCfg { regime, monitors: false, guard_mag: true, silent: false });
         let mut src = crate::train::ListSource { evs: &evs, i: 0 };
         let mut rec = Vec::new();
         crate::train::drive(&mut sim, &mut src, &mut rec);
@@ -937,4 +938,66 @@ pub fn small_dag(n: usize, mut index: u64) -> Option<Vec<Ev>> {
 
 pub fn small_dag_count(n: usize) -> u64 {
     (1..=n as u64).map(|a| a + a * a + a * a * a).product()
+}
+
+// ------------------------------------------------------------- unobserved replay (reads are pure)
+
+/// The same history as a program would run it that never looks at a gradient before the end: no
+/// monitor, no relational observation, gradient reads removed, guarded events removed. What it
+/// finally sees (values and gradients of every live handle) must be what the observed run saw.
+pub fn unobserved(out: &RunOut) -> (Vec<Violation>, u64) {
+    if out.sim.dead || out.sim.passes.is_empty() || out.trace.iter().any(|e| matches!(e, Ev::TrainOpen { .. })) {
+        return (vec![], 0);
+    }
+    let evs: Vec<Ev> = out
+        .trace
+        .iter()
+        .enumerate()
+        .map(|(i, e)| {
+            let skipped_by_guard = out.sim.status_log.get(i) == Some(&4);
+            if skipped_by_guard || matches!(e, Ev::GradRead { .. }) {
+                Ev::Nop
+            } else {
+                e.clone()
+            }
+        })
+        .collect();
+    let mut sim = Sim::new(crate::sim::SimCfg { regime: out.regime, monitors: false, guard_mag: false, silent: true });
+    let mut src = crate::train::ListSource { evs: &evs, i: 0 };
+    let mut rec = Vec::new();
+    crate::train::drive(&mut sim, &mut src, &mut rec);
+    if sim.dead {
+        return (vec![v("C10", "unobserved_history_panicked", "history without intermediate gradient reads".into(), sim.event_index, format!("the same history panics when no gradient is read in between: {}", crate::last_panic()))], 1);
+    }
+    let base = final_obs(&out.sim);
+    let fork = final_obs(&sim);
+    let fmap: BTreeMap<(&'static str, Slot), &Option<Obs>> = fork.iter().map(|r| ((r.kind, r.slot), &r.obs)).collect();
+    for r in &base {
+        if let Some(o) = fmap.get(&(r.kind, r.slot)) {
+            if **o != r.obs {
+                let mut x = v(
+                    "C10",
+                    "unobserved_history_differs",
+                    format!("{} without intermediate gradient reads", r.kind),
+                    out.trace.len().saturating_sub(1),
+                    format!("{} of s{} is {:?} when gradients are read after every step, but {:?} when the same history runs without looking at any gradient before the end", r.kind, r.slot, r.obs.as_ref().map(|x| x.vals()), o.as_ref().map(|x| x.vals())),
+                );
+                x.extra = serde_json::Value::Null;
+                let mut y = x.clone();
+                y.prop = "C01";
+                let mut z = x.clone();
+                z.prop = "C12";
+                return (vec![x, y, z], 1);
+            }
+        }
+    }
+    (vec![], 1)
+}
+
+pub fn unobserved_judge(events: &[Ev], regime: Regime) -> Vec<Violation> {
+    let sim = run_trace(events, regime, true);
+    let out = RunOut { trace: events.to_vec(), actors: vec![], digest: 0, regime, sim };
+    let mut vs = out.sim.violations.clone();
+    vs.extend(unobserved(&out).0);
+    vs
 }
